@@ -23,7 +23,54 @@ func init() {
 // scenario "ring=a,b,c;j=x;via=i": stable ring, joiner x joins via member index i while a
 // probe thread (one atomic step) looks up every probe id at every node, at every point of
 // the join (preemption bound 1 = every pause point of the join).
+// c09ConcLookup: two membership changes racing (scenario names of the shared concurrency menu,
+// prefixed "conc:") with a third thread that issues, as one step placed anywhere in the schedule, lookups at every member and joiner; a lookup that
+// never returns shows up as a deadlock or a horizon in the scheduler result.
+func c09ConcLookup(name string) e2.RunFn {
+	s := parseConc(strings.TrimPrefix(name, "conc:"))
+	if s == nil {
+		return nil
+	}
+	return func(prefix []int) *explore.Exec {
+		probes, answered := 0, 0
+		o := runConc(s, prefix, false, func(w *chordlib.World) []func() {
+			return []func(){func() {
+				// one probe step, as in the single-join leg: the racing operations are paused
+				// wherever the schedule put them and every lookup runs to completion
+				vsched.AtomicEnter()
+				defer vsched.AtomicLeave()
+				vsched.SetCallLimit(20000)
+				ids := universeOf(s)
+				for _, id := range ids {
+					n := w.Net.Nodes[id]
+					if n == nil {
+						continue
+					}
+					for _, p := range ids {
+						probes++
+						vsched.ResetCalls()
+						v, err := n.FindSuccessor(p + 1)
+						if v != nil || err != nil {
+							answered++
+						}
+					}
+				}
+			}}
+		})
+		x := &explore.Exec{Res: o.res, Outcome: fmt.Sprintf("%s answered=%d/%d", o.outcome(), answered, probes)}
+		if f := o.res.Failed(); f != "" {
+			x.Violation = "lookups racing two membership changes: " + f
+		} else if answered != probes {
+			x.Violation = "lookup returned neither node nor error while two membership changes raced"
+		}
+		return x
+	}
+}
+
 func c09Lookup(name string) e2.RunFn {
+	if strings.HasPrefix(name, "conc:") {
+		return c09ConcLookup(name)
+	}
 	var ringS string
 	var j uint64
 	var via int
@@ -151,7 +198,20 @@ func c09(c *report.Check) {
 	}
 	scns := c09Scenarios(c.Thorough())
 	bound := 1
-	sum := e2.Drive(c, []e2.Plan{{Scns: scns, Bound: bound, Batch: 1}}, 0)
+	var cscns []string
+	cb, cns := 2, 16
+	if c.Thorough() {
+		cns = 48
+	}
+	for i, sc := range concScenarios(false) {
+		// quick: two joiners to one successor, two joiners to different successors; thorough adds
+		// the one-node ring and the leaves racing joins
+		if i == 0 || i == 2 || (c.Thorough() && i < 6) {
+			cscns = append(cscns, "conc:"+sc)
+		}
+	}
+	sum := e2.Drive(c, []e2.Plan{{Scns: scns, Bound: bound, Batch: 1}, {Scns: cscns, Bound: cb, NShards: cns}}, 0)
+	c.Set("concurrent_membership_scenarios_with_lookup_thread", len(cscns))
 	for _, v := range sum.Violations {
 		at := v.Violation
 		if i := strings.Index(at, ": "); i > 0 {
@@ -166,7 +226,7 @@ func c09(c *report.Check) {
 	c.Set("distinct_nontrivial", len(sum.Outcomes))
 	c.Set("scenarios", len(scns))
 	c.Set("preemption_bound", bound)
-	c.Set("rule", fmt.Sprintf("%d join scenarios (ring x joiner position x entry node); for every scheduling point of the real Join (statement-level points in chord membership/lookup/stabilize code, preemption bound 1) the join is paused and one probe step runs FindSuccessor at every node incl. the joiner for every probe id (members, ±1, +2^47, midpoints, 0, 2^48-1); termination = each lookup finishes within 20000 scheduling-point calls (a legitimate lookup on <=5 nodes needs <2000); 'states' = distinct (pause point, join result, answers) outcomes", len(scns)))
+	c.Set("rule", fmt.Sprintf("%d join scenarios (ring x joiner position x entry node); for every scheduling point of the real Join (statement-level points in chord membership/lookup/stabilize code, preemption bound 1) the join is paused and one probe step runs FindSuccessor at every node incl. the joiner for every probe id (members, ±1, +2^47, midpoints, 0, 2^48-1); termination = each lookup finishes within 20000 scheduling-point calls (a legitimate lookup on <=5 nodes needs <2000); 'states' = distinct (pause point, join result, answers) outcomes; plus %d scenarios of two racing membership changes (joins to one or two successors%s) with a third thread that issues, as one step placed anywhere in the schedule, lookups at every member and joiner, every schedule within preemption bound %d: no lookup may block forever", len(scns), len(cscns), map[bool]string{true: ", a leave racing a join", false: ""}[c.Thorough()], cb))
 	var samples []any
 	for i, s := range scns {
 		if i%(len(scns)/3+1) == 0 {
